@@ -220,11 +220,15 @@ def check(ctx):
     # memoised answers on the decode path: the key covers every parameter the stored answer depends on
     from ..rules import persist as _ps
     _ps.check_decode_memos(ctx)
+    from ..rules import indexspace as _ixg
+    _ixg.check_global_row_ids(ctx, f'{GP}.get_all_discrete_x')
 
 
 from ..selftest import V  # noqa: E402
 
 VARIANTS = [
+    V('row-ids-taken-after-the-filter', 'optimization/graph_processor.py',
+      [("        i_combs = np.arange(x.shape[0])\n", ""), ("        i_combs = i_combs[x_keep]\n", "        i_combs = np.arange(x.shape[0])\n")], key='A21g'),
     V('old-value-dropped-before-validation', 'optimization/graph_processor.py',
       [("        if value is None:\n            if idx in self._fixed_values:\n                del self._fixed_values[idx]\n        else:\n", "        self._fixed_values.pop(idx, None)\n        if value is not None:\n")], key='clears-after-write'),
     V('twin-free-by-pop', 'optimization/graph_processor.py',
